@@ -35,6 +35,7 @@ LastAbs == IF G.S.base = NoTime THEN 1000 ELSE G.S.base + G.S.lastT
 Events ==
   UNION {{[e |-> "hit", addr |-> a, thread |-> th, t |-> LastAbs + 10, m |-> m] : th \in Threads, m \in MsgsAt(a)} : a \in Addrs}
   \cup {[e |-> "destroy", addr |-> a] : a \in Addrs \cup {"never"}}
+  \cup {[e |-> "exit"]}
   \cup {[e |-> "invoke", cmd |-> c] : c \in GCmds}
 
 Next == /\ Len(inp) < MaxLen
